@@ -7,7 +7,7 @@ Opts == {"gf", "gf_terminals", "mark_heads_marking", "boyd_split_marking", "boyd
 Labs == {<<"N", "P">>, <<"N", "P", "-", "S", "B", "J", "'">>}
 Edges == {<<"H", "D">>, <<"-", "-">>, <<"-", "X">>}
 Init == c \in [lab : Labs, edge : Edges, head : {"T", "F"}, split : {"T", "F"}, bn : {1, 2},
-               inner : BOOLEAN, o : SUBSET Opts, gfsep : {"-", "#", "0"}]   \* ("0": what `gf_separator:0` becomes on the command line)
+               inner : BOOLEAN, o : SUBSET Opts, gfsep : {"-", "#", "0", "~"}]   \* ("0": what `gf_separator:0` becomes on the command line)
 Next == UNCHANGED c
 D == Decorate(c, c.o, c.gfsep, <<ToString(c.bn)>>)
 InvDecor ==
@@ -15,7 +15,7 @@ InvDecor ==
   /\ ("gf" \notin c.o => ~\E i \in Len(c.lab) + 1..Len(D) : D[i] = c.gfsep /\ c.gfsep = "#")
   /\ (c.o = {} => D = c.lab)
   /\ Len(D) = Len(c.lab)
-       + (IF "gf" \in c.o /\ c.edge[1] # "-" /\ (c.inner \/ "gf_terminals" \in c.o) THEN 1 + Len(c.edge) ELSE 0)
+       + (IF "gf" \in c.o /\ c.edge[1] # "-" /\ (c.inner \/ "gf_terminals" \in c.o) THEN Len(SepChars(c.gfsep)) + Len(c.edge) ELSE 0)
        + (IF "mark_heads_marking" \in c.o /\ c.head = "T" THEN 1 ELSE 0)
        + (IF "boyd_split_marking" \in c.o /\ c.split = "T" THEN 1 ELSE 0)
        + (IF "boyd_split_numbering" \in c.o /\ c.split = "T" THEN 1 ELSE 0)
